@@ -16,7 +16,7 @@ PROP = dict(
         level_text="Explicit-state model checking of the real streamsMap (both perspectives, real Stream/SendStream/ReceiveStream objects, real flow controllers; the control-frame queue and the streamSender are recorders, the recorder's onStreamCompleted calls DeleteStream exactly like connection.go) against a counting reference model of the stream-id ledger: BFS with canonical-state merging over peer frames / local calls / completions (parts direct-* run to closure, the others to a depth bound), plus an exhaustive enumeration of all operation sequences of a fixed length with blocking OpenStreamSync callers inside testing/synctest bubbles, run to quiescence after every operation (parts sync-*). Every transition is executed on the real code, so there is no model/code gap. Right level because the property quantifies over all interleavings of peer frames, local calls and completions, which is a finite space for small limits and a bounded id universe.",
         level_note="Trusted: the reference model in mc/c15 (id arithmetic taken from the RFC 9000 2.1 bit layout, a per-stream completion model of the two halves, a FIFO queue of waiting callers), the reflective canonicaliser (only the harness-owned recording sender, the never-updated RTT statistics and the logger are skipped), the bounded id universe (stream numbers up to limit+2 .. limit+10) and the depth bounds of the parts that do not close. E3 targets: e3-interleavings executes every order of the steps of 15 thread mixes on real goroutines at quiescence granularity; e3-lockpoints rebuilds streams_map*.go against a channel-based mutex whose acquisitions are scheduler points and executes every schedule with at most 1 (thorough: 2) preemptions. Scheduling only at synchronisation operations is sufficient only if there are no unsynchronised shared accesses: the supporting pass e3-race-pass runs the same thread mixes as free goroutines under `go test -race` (sampled; it decides nothing by itself and is excluded from the counts; a race report is a violation).",
         technique="explicit-state BFS over the real implementation with reference-model oracle; bounded-exhaustive operation sequences in synctest bubbles",
-        deadline=dict(quick=90, thorough=900),
+        deadline=dict(quick=150, thorough=900),
         rule="explicit-state BFS over the real streamsMap (successor = fresh instance + replay of the shortest path + one op); sync-* parts: every operation sequence of a fixed length on a fresh instance",
         assumptions=["a call that the model says cannot block (Accept with a queued stream after a first non-blocking attempt came back empty, Read after FIN/reset) is given 30 s of wall clock before it is declared blocked",
                      "peer frames carry 1 byte at offset 0 / final size 1, so that no flow-control or final-size error interferes with the stream-id discipline under test",
